@@ -38,7 +38,18 @@ func observe(c *DetCase, noOpt bool) (string, error) {
 		return "rejected", nil
 	}
 	var b strings.Builder
-	b.WriteString("program:" + programDigest(r) + "\n")
+	first := programDigest(r)
+	b.WriteString("program:" + first + "\n")
+	// "across repeated Prepare calls": asking the same evaluator again, before
+	// it ran, gives the same program
+	for k := 0; k < 2; k++ {
+		if perr, pan := r.Prepare(noOpt); perr != nil || pan != nil {
+			return "", fmt.Errorf("Prepare call %d on the same evaluator failed: %v %v", k+2, perr, pan)
+		}
+		if again := programDigest(r); again != first {
+			return "", fmt.Errorf("Prepare call %d on the same evaluator compiled a different program (noOptimize=%v): %s", k+2, noOpt, firstDiff(first, again))
+		}
+	}
 	for i := 0; i < 3; i++ {
 		var obj interface{}
 		if c.Obj != nil {
